@@ -89,7 +89,6 @@ def flush_deadlines(ctx):
 
     # the item's fields are terms rooted at the alter_all argument: seed generic facts after the run is impossible,
     # so facts about the stored record are added by a model hook: we seed on the known shape of the stored term
-    stored0 = ("stored_any", F(P("self"), "memory"), 1)
     paths0 = I.run(fb, [P("self"), P("header")], seeds=seeds)
     stored = None
     for p in paths0:
